@@ -1,5 +1,5 @@
 (* C14 — failed transfers in the distributor lose nothing and are made up later. *)
-From C4E Require Import Base Minter Distributor DistrCoins DistrProofs Books Credited DistrNz Ledger LedgerProofs LedgerExample.
+From C4E Require Import Base Minter Distributor DistrCoins DistrProofs Books Credited DistrNz Ledger LedgerProofs LedgerExample LedgerUpdates.
 From C4EProps Require C03.
 Open Scope Z_scope.
 
@@ -136,3 +136,23 @@ Theorem C14_example_failing_payouts_are_made_up :
     forall d a, XAcct a -> ledA a (dw_states w1) (wbank w1) d = ledA a (dw_states w2) (wbank w2) d.
 Proof. exact failing_payouts_are_made_up. Qed.
 Print Assumptions C14_example_failing_payouts_are_made_up.
+
+(* the same across parameter updates: two histories with the same updates, inflows and blocks that differ only in which payouts
+   and burns fail credit every account identically after every update and block *)
+Theorem C14_failures_never_change_credited_amounts_across_parameter_updates :
+  forall Acct bk, acct_universe Acct bk -> forall segs segs' w (st : Z -> aled),
+  lwinv Acct bk w -> Forall (seg_ok Acct) segs -> Forall (seg_ok Acct) segs' -> Forall2 same_segment_but_faults segs segs' ->
+  (forall d, LRep Acct bk d (st d) w) ->
+  exists w1 w2, lrun_segs w segs = Ok w1 /\ lrun_segs w segs' = Ok w2 /\
+    forall d, (forall a, Acct a -> ledA a (dw_states w1) (wbank w1) d = ledA a (dw_states w2) (wbank w2) d) /\
+              ledB bk (dw_states w1) (wbank w1) d = ledB bk (dw_states w2) (wbank w2) d /\
+              unbooked (dw_states w1) (wbank w1) d = unbooked (dw_states w2) (wbank w2) d.
+Proof. exact credited_amounts_independent_of_failures_across_updates. Qed.
+Print Assumptions C14_failures_never_change_credited_amounts_across_parameter_updates.
+
+Theorem C14_example_failing_payouts_are_made_up_across_an_update :
+  exists w1 w2, lrun_segs xworld xsegs1 = Ok w1 /\ lrun_segs xworld xsegs2 = Ok w2 /\
+    dw_bal w1 = dw_bal w2 /\ dw_burned w1 = dw_burned w2 /\ dw_subs w1 = xsubs2 /\
+    forall d a, XAcct a -> ledA a (dw_states w1) (wbank w1) d = ledA a (dw_states w2) (wbank w2) d.
+Proof. exact failing_payouts_are_made_up_across_an_update. Qed.
+Print Assumptions C14_example_failing_payouts_are_made_up_across_an_update.
